@@ -25,6 +25,21 @@ CHECKS = {
          "CPython hashlib", "history checking against an executable model (hashlib)", "4 C17"),
  "C20": ("exploration", "set_cond/select/cswap/set_condneg with both control words on every field and point type in all representations; equals/iszero/isneutral on equal values in different representations and on neighbours; all lookup primitives for in-range and out-of-range indices on hostile tables.",
          "only the two documented control words are exercised", "differential testing with representation-diverse operands", "4 C20"),
+
+ "C07": ("exploration", "Ed25519/Ed448 verification on honest signatures (byte-equal to RFC 8032), constructed tuples with torsion components in A and R (accepted only by the cofactored rule), low-order keys/R, and invalid neighbours (S+L, S near L, non-canonical encodings, x=0 with sign bit, lengths, bit flips) for pure/ctx/ph variants, judged by an independent strict cofactored RFC 8032 predicate.",
+         "ref_ed RFC 8032 implementation (RFC vectors + repository KATs); contexts > 255 bytes are outside the documented domain", "differential testing against a reference predicate on constructed adversarial tuples", "4 C07"),
+ "C08": ("exploration", "ECDSA P-256/secp256k1: deterministic signatures byte-equal to the documented nonce derivation (RFC 6979 + extra input; SHA-512 scheme for secp256k1) for hash lengths 0..70; verification on signatures manufactured with chosen s by the forged-hash construction, the infinity outcome, out-of-range r/s, all length/padding forms, judged by the textbook predicate.",
+         "ref_weier (RFC 6979 A.2.5 vectors, repository KATs); x(R) in [n,p) not reachable (2^-128)", "differential testing against a reference predicate and reference signer", "4 C08"),
+ "C09": ("exploration", "jq255e/jq255s/GLS254 Schnorr: deterministic and seeded signatures byte-equal to the reference, randomized ones accepted by the reference verifier, tampered signatures judged by it; ECDH both directions, failure inputs give status 0 and the documented substitute key that depends on the local secret.",
+         "ref_do / ref_gls (all repository KATs)", "differential testing against reference signer/verifier/ECDH", "4 C09"),
+ "C13": ("exploration", "Truncated signatures: completeness (exact reconstruction for rm 8..32 and all fills of the ignored bits, with ground extreme hidden parts for rm <= 13), soundness (anything returned verifies under the reference verifier and is a completion of the supplied prefix; corrupted prefixes, the other ECDSA root, true s just below n), prepare_truncate on boundary/short forms, and complete recomputation of the 16385-entry UX_COMP table via the hook.",
+         "reference verifiers; rm outside 8..32 not generated; hidden part 2^(rm-4) of an Ed25519 S (needs S >= 2^252, probability 2^-125) not reachable", "completeness/soundness monitor against reference verifiers; exhaustive table check", "4 C13"),
+ "C16": ("exploration", "Whole-life history of LMS keys for the four parameter sets: every sign call's output must equal the reference signature for the next expected leaf (indices strictly increasing, once each), a crash injected inside ots_sign (RNG that panics) must burn the reserved index, exhausted keys return None forever and stay usable for verification; alterations of every signature field judged by the reference verifier.",
+         "reference LMS (RFC 8554 vector), hashlib", "history monitor with fault injection (panicking RNG) against an executable model", "4 C16"),
+ "C18": ("exploration", "One seeded stream made of slices of all other workloads executed by the six native builds; per-request comparison against the default build and against the reference oracles; documented degrees of freedom compared through their contract.",
+         "host CPU features; arm64-only code paths not executed", "cross-build differential execution with per-response comparison", "4 C18"),
+ "C19": ("exploration", "Untrusted-input requests of the other workloads plus byte-level inputs (lengths 0..4096, structure-aware mutations of valid keys, signatures, FROST wire objects, LMS signatures) for every decode/verify/ECDH/map/hash entry point under overflow-checked+debug-assertion builds (default, w32, m51), AddressSanitizer, valgrind memcheck and (thorough) Miri; violations are panics, sanitizer reports, process death, step-budget overruns, malformed status words.",
+         "documented-domain violations are not generated; Miri with aliasing model off", "sanitizers (ASan, memcheck, Miri) + overflow-checked builds + panic/status-word monitor under hostile byte-level inputs", "4 C19"),
  "C05": ("exploration", "Decoder/encoder monitor: hostile byte strings (every length 0..L+2, values q-1/q/q+1/2^(8L)-1, unused bits, one-byte deviations from q, reducing decodes of 0..4 blocks+1) through every decode/encode entry point of every field type on 3/6 backend builds; oracle = int.from_bytes and comparison with the modulus; exact status words required.",
          "Python int arithmetic; moduli constants", "differential testing of decoders/encoders against int.from_bytes on boundary byte strings", "4 C05"),
  "C12": ("exploration", "Division/inversion/sqrt/Legendre/batch-inversion monitor with divisors engineered against the approximate binary GCD, structured residues/non-residues in redundant representations, batch sizes around the 200-element block with zeros at boundaries; binary-field inverse/sqrt/trace/half-trace/qsolve against their defining equations; 3/6 backend builds.",
